@@ -64,9 +64,20 @@ MEANING GIVEN TO RUST (the run-time library is lean/CxVerif/Util/GlueRt.lean, na
               `Extern`s named by the spec (functions tied elsewhere, e.g. the compression function).
   consts      `const X: usize = e;` looked up by name in the kernel's file and inlined as the translated initialiser;
               `size_of::<uN>()`.
-Anything else raises TranslateError (-> broken extraction): nothing is skipped silently except attributes, `use`
-items, visibility and nested `fn` items (translated when they are kernels of their own).  NOT modelled (trusted): that `usize` `+`/`*` do not overflow (all such values are slice
-lengths / array sizes), allocation, `Clone`, memory safety of the `unsafe` idioms beyond the range checks above.
+Anything else raises TranslateError (-> broken extraction): nothing is skipped silently.  After audit 3 (tools/ktx_glue_guard.py):
+  lookup      the function is the ONE live definition in the live `impl` blocks the scope regex names (bounded region, item `#[cfg]`
+              evaluated: x86_64, sse2, cryptoxide_verif, default cargo features, not test; other keys refused);
+  body lint   `#[cfg]`/unknown attributes on statements, nested `fn`/`use`/`struct`/… items, a binding in a nested block that shadows
+              an outer one, a `let` that re-binds a `&mut` parameter, imports of a used name that differ from the pinned list: refused;
+  order       `return e` / the trailing expression is evaluated BEFORE the state is handed back; an assignment whose place operands
+              and value both matter to the state (`a[self.i] = self.next()`, `x += self.bump()`) and a `while` condition with effects
+              are refused; `&&`/`||` with a fallible right operand is refused; `let x = &mut a[lo..hi]` checks the range at once;
+              `x = …` on a `&mut` borrow (re-binding) is refused, `let y = out;` of a `&mut` parameter is an alias;
+  integers    usize `/`, `%` by anything but a non-zero constant carry the check `d = 0 -> none`; usize `<<` needs a literal count
+              < 64 and is `% 2 ^ 64`; a value whose type hangs only on unsuffixed literals (`let k = 0;`) may not be cast (`as`)
+              unless a use confirms that it is a usize (rustc would infer i32).
+NOT modelled (trusted): that `usize` `+`/`*` do not overflow (all such values are slice lengths / array sizes), allocation, `Clone`,
+memory safety of the `unsafe` idioms beyond the range checks above.
 """
 import copy
 import os
@@ -76,6 +87,7 @@ import kernel_translate as KT
 from kernel_translate import TranslateError, P, strip_comments, find_fn
 import ktx_words as KW
 from ktx_words import lex, match_close, isop, toks_text
+import ktx_glue_guard as GUARD
 
 LEAN_KEYWORDS = {"at", "from", "end", "open", "show", "have", "fun", "then", "else", "if", "do", "let", "in", "with",
                  "match", "by", "where", "def", "instance", "structure", "class", "local", "section", "namespace",
@@ -456,8 +468,9 @@ class FnInfo:
 class V:
     """a Lean value: text, type, atomic? (needs no parentheses), prop? (a Prop-valued condition)"""
 
-    def __init__(self, t, ty, at=False, prop=False):
+    def __init__(self, t, ty, at=False, prop=False, weak=frozenset()):
         self.t, self.ty, self.at, self.prop = t, ty, at, prop
+        self.weak = weak         # ids of unsuffixed-literal `let`s this value's integer type hangs on (see Tr.ev)
 
     def p(self):
         return self.t if self.at else f"({self.t})"
@@ -479,8 +492,10 @@ class Cursor:
 
 
 class Var:
-    def __init__(self, ty, val):
+    def __init__(self, ty, val, param=None, weak=None):
         self.ty, self.val = ty, val      # val: V | dict field -> (V | dict) | Alias | Cursor
+        self.param = param               # name of the `&mut` parameter this variable IS (a shadowing `let` makes a new Var without it)
+        self.weak = weak                 # id of an unsuffixed-literal `let` whose type (assumed usize) is not yet confirmed
 
 
 class Env:
@@ -490,7 +505,7 @@ class Env:
 
     def copy(self):
         e = Env()
-        e.vars = {k: Var(v.ty, copy.deepcopy(v.val) if isinstance(v.val, dict) else v.val) for k, v in self.vars.items()}
+        e.vars = {k: Var(v.ty, copy.deepcopy(v.val) if isinstance(v.val, dict) else v.val, v.param, v.weak) for k, v in self.vars.items()}
         e.facts = set(self.facts)
         return e
 
@@ -631,6 +646,17 @@ def tup(texts):
     return texts[0] if len(texts) == 1 else "(" + ", ".join(texts) + ")"
 
 
+def nonzero_const(text):
+    """is the Lean text a closed natural-number expression (literals, + * and parentheses) with a non-zero value?"""
+    t = text.strip()
+    if not re.fullmatch(r"[0-9+*() ]+", t):
+        return False
+    try:
+        return int(eval(t, {"__builtins__": {}}, {})) != 0
+    except Exception:
+        return False
+
+
 def names_in(text):
     return set(re.findall(r"[A-Za-z_σ][A-Za-z0-9_']*", text))
 
@@ -679,6 +705,11 @@ class Tr:
         self.main = Scope("def")
         self.ret_ty = None
         self.sig = None
+        # unsuffixed integer literals: `let k = 0;` is translated as usize.  rustc infers the type from the uses and falls back to i32;
+        # every use the translator accepts forces the same type on both sides EXCEPT an `as` cast.  So: union-find over the literal
+        # `let`s (merged when they meet each other), confirmed when one meets a typed operand / context; a cast of a value whose type
+        # is never confirmed is refused at the end (run()).
+        self.weak_parent, self.weak_firm, self.weak_casts, self.nweak = {}, set(), [], 0
 
     # ---------------------------------------------------------------- names
     def fresh(self, base):
@@ -893,6 +924,8 @@ class Tr:
                     hi = self.ev(ix[2], env, items, T_NAT)
                     if len(ix) > 3 and ix[3] == "..=":
                         hi = V(f"{hi.p()} + 1", T_NAT)
+                if ix[2] is None and len(ix) > 3 and ix[3] == "..=":
+                    raise TranslateError("`..=` without upper bound")
                 hi = self.atomize(hi, items, "hi")
                 return (b[0], b[1] + [("r", lo, hi)])
             i = self.atomize(self.ev(ix, env, items, T_NAT), items, "ix")
@@ -1018,6 +1051,37 @@ class Tr:
             self.check(env, items, f"{cur.p()}.length ≠ {n.p()}")
         return p, cur
 
+    # ---------------------------------------------------------------- unsuffixed literals (see __init__)
+    def wfind(self, i):
+        while self.weak_parent.get(i, i) != i:
+            i = self.weak_parent[i]
+        return i
+
+    def wunion(self, ids):
+        roots = [self.wfind(i) for i in ids]
+        if not roots:
+            return
+        firm = any(r in self.weak_firm for r in roots)
+        for r in roots[1:]:
+            if r != roots[0]:
+                self.weak_parent[r] = roots[0]
+        if firm:
+            self.weak_firm.add(self.wfind(roots[0]))
+
+    def wfirm(self, ids):
+        for i in ids:
+            self.weak_firm.add(self.wfind(i))
+
+    def wmeet(self, a, b):
+        """two operands that rustc unifies: the weak ids of the result"""
+        sa, sb = a.ty is None or bool(a.weak), b.ty is None or bool(b.weak)
+        if sa and sb:
+            ids = a.weak | b.weak
+            self.wunion(list(ids))
+            return ids
+        self.wfirm(a.weak | b.weak)
+        return frozenset()
+
     # ---------------------------------------------------------------- expressions
     def lit(self, n, ty):
         if ty is None or ty[0] in ("nat", "natw"):
@@ -1048,22 +1112,35 @@ class Tr:
             return want if want is not None and want[0] == "natw" and want[1] == WORD_BITS[suf] else ("word", WORD_BITS[suf])
         raise TranslateError(f"literal suffix {suf}")
 
-    def ev(self, e, env, items, want=None):
+    def ev(self, e, env, items, want=None, soft=False):
+        """value of an expression.  soft=False: the context has a definite type (index, argument, store, return …), which confirms the
+        assumed type of unsuffixed-literal variables in it; soft=True (operands, cast source, untyped `let`): the caller decides"""
+        v = self.ev0(e, env, items, want)
+        if v is not None and v.weak and not soft:
+            self.wfirm(v.weak)
+            v = V(v.t, v.ty, v.at, v.prop)
+        return v
+
+    def ev0(self, e, env, items, want=None):
         k = e[0]
         if k == "lit":
             return self.lit(e[1], self.suffix_ty(e[2], want))
         if k == "paren":
-            v = self.ev(e[1], env, items, want)
-            return V(v.t, v.ty, v.at, v.prop)
+            v = self.ev(e[1], env, items, want, soft=True)
+            return V(v.t, v.ty, v.at, v.prop, v.weak)
         if k == "ref":
-            return self.ev(e[2], env, items, want)
+            return self.ev(e[2], env, items, want, soft=True)
         if k == "path":
             name = e[1]
             if env is not None and name in env.vars:
                 p = self.place_of(e, env, items)
                 if p is None:
                     raise TranslateError(f"pointer `{name}` used as a value")
-                return self.read_place(p, env, items)
+                r = self.read_place(p, env, items)
+                w = env.vars[name].weak
+                if w is not None and isinstance(r, V):
+                    r = V(r.t, r.ty, r.at, r.prop, frozenset([w]))
+                return r
             if name in self.generics:
                 return self.generic(name)
             if name in ("true", "false"):
@@ -1093,7 +1170,7 @@ class Tr:
                 return V(f"~~~{v.p()}", v.ty)
             raise TranslateError(f"`!` on {v.ty}")
         if k == "cast":
-            return self.cast(self.ev(e[1], env, items), e[2], want)
+            return self.cast(self.ev(e[1], env, items, soft=True), e[2], want)
         if k == "call":
             r = self.call(e, env, items, want)
             if r is None:
@@ -1159,6 +1236,10 @@ class Tr:
         if ix[0] == "range":
             lo = V("0", T_NAT, True) if ix[1] is None else self.ev(ix[1], env, items, T_NAT)
             hi = self.length(l) if ix[2] is None else self.ev(ix[2], env, items, T_NAT)
+            if len(ix) > 3 and ix[3] == "..=":
+                if ix[2] is None:
+                    raise TranslateError("`..=` without upper bound")
+                hi = V(f"{hi.p()} + 1", T_NAT)
             return self.bind(items, "t", f"Glue.slice {l.p()} {lo.p()} {hi.p()}", l.ty)
         i = self.ev(ix, env, items, T_NAT)
         return self.bind(items, "t", f"Glue.index {l.p()} {i.p()}", l.ty[1])
@@ -1201,8 +1282,9 @@ class Tr:
                 raise TranslateError("fallible right operand of a short-circuit operator")
             return V(f"{a} {'∧' if op == '&&' else '∨'} {b}", T_BOOL, False, True)
         if op in self.CMP:
-            a = self.ev(l, env, items)
-            b = self.ev(r, env, items, a.ty)
+            a = self.ev(l, env, items, soft=True)
+            b = self.ev(r, env, items, a.ty, soft=True)
+            self.wmeet(a, b)
             if a.ty is None:
                 a = self.coerce(a, b.ty or T_NAT)
             b = self.coerce(b, a.ty)
@@ -1210,7 +1292,8 @@ class Tr:
                 raise TranslateError(f"comparison of {a.ty} and {b.ty}")
             return V(f"{a.p()} {self.CMP[op]} {b.p()}", T_BOOL, False, True)
         if op in ("<<", ">>"):
-            a = self.ev(l, env, items, want)
+            a = self.ev(l, env, items, want, soft=True)
+            wk = a.weak
             a = self.coerce(a, want or T_NAT)
             if r[0] != "lit":
                 if a.ty[0] == "word":
@@ -1221,7 +1304,10 @@ class Tr:
                 ntext, nval = str(r[1]), r[1]
             lop = "<<<" if op == "<<" else ">>>"
             if a.ty[0] == "nat":
-                return V(f"{a.p()} {lop} {ntext}", T_NAT)
+                # usize: the count must be a literal below the width; `<<` loses the bits shifted out (release) — written out
+                if nval is None or nval >= 64:
+                    raise TranslateError("usize shift: only a literal count < 64 is supported")
+                return V(f"({a.p()} <<< {ntext}) % 2 ^ 64", T_NAT, weak=wk) if op == "<<" else V(f"{a.p()} >>> {ntext}", T_NAT, weak=wk)
             if a.ty[0] == "natw":
                 if nval is None or nval >= a.ty[1]:
                     raise TranslateError("shift count")
@@ -1231,19 +1317,29 @@ class Tr:
                     raise TranslateError("shift count")
                 return V(f"{a.p()} {lop} {nval}", a.ty)
             raise TranslateError(f"shift of {a.ty}")
-        a = self.ev(l, env, items, want)
-        b = self.ev(r, env, items, a.ty if a.ty is not None else want)
+        a = self.ev(l, env, items, want, soft=True)
+        b = self.ev(r, env, items, a.ty if a.ty is not None else want, soft=True)
+        wk = self.wmeet(a, b)
         if a.ty is None:
             a = self.coerce(a, b.ty or want or T_NAT)
         b = self.coerce(b, a.ty)
         if a.ty != b.ty:
             raise TranslateError(f"operands of `{op}`: {a.ty} vs {b.ty}")
         t = a.ty
+        r = self.binop_arith(op, a, b, t, env, items)
+        return V(r.t, r.ty, r.at, r.prop, wk) if wk else r
+
+    def binop_arith(self, op, a, b, t, env, items):
         if op in self.BITS:
             if t[0] not in ("word", "nat", "natw"):
                 raise TranslateError(f"`{op}` on {t}")
             return V(f"{a.p()} {self.BITS[op]} {b.p()}", t)
         if t[0] == "nat":
+            if op in ("/", "%") and not nonzero_const(b.t):
+                # Rust panics on a zero divisor (also in release builds); Lean's `/ 0 = 0` would be a value
+                if env is None:
+                    raise TranslateError(f"`{op}` by a divisor that is not a non-zero constant, in a constant")
+                self.check(env, items, f"{b.p()} = 0")
             if op in self.ARITH:
                 return V(f"{a.p()} {self.ARITH[op]} {b.p()}", t)
             if op == "-":
@@ -1257,6 +1353,8 @@ class Tr:
         last = tast[1].split("::")[-1] if tast[0] == "path" else None
         if last is None:
             raise TranslateError("cast to a non-integer type")
+        if v.weak:
+            self.weak_casts.append(v.weak)
         if v.ty is None:
             v = self.coerce(v, T_NAT)
         if last == "usize":
@@ -1809,14 +1907,29 @@ class Tr:
             p = self.place_of(e[2], env, items)
             if p is None:
                 raise TranslateError("`&mut` of a non-place")
+            if p[1] and p[1][-1][0] in ("r", "i"):
+                self.read_place(p, env, items)        # Rust checks the range when the borrow is created, used or not
+            env.vars[name] = Var(self.place_ty(p, env), Alias(p, self.place_ty(p, env)))
+            return
+        e0 = e
+        while e0[0] == "paren":
+            e0 = e0[1]
+        if e0[0] == "path" and e0[1] in env.vars and (isinstance(env.vars[e0[1]].val, Alias) or env.vars[e0[1]].param is not None):
+            # `let y = out;` moves a `&mut` borrow: y is the same place
+            p = self.place_of(e0, env, items)
             env.vars[name] = Var(self.place_ty(p, env), Alias(p, self.place_ty(p, env)))
             return
         want = self.conv(tast) if tast is not None and tast[0] != "infer" else None
-        v = self.ev(init, env, items, want)
+        v = self.ev(init, env, items, want, soft=want is None)
+        wid = None
+        if want is None and (v.ty is None or v.weak):
+            self.nweak += 1
+            wid = self.nweak
+            self.wunion([wid] + sorted(v.weak))
         v = self.coerce(v, want or (T_NAT if v.ty is None else v.ty))
         n = self.fresh(name)
         items.append(("let", n, v.t))
-        env.vars[name] = Var(v.ty, V(n, v.ty, True))
+        env.vars[name] = Var(v.ty, V(n, v.ty, True), weak=wid)
 
     OPASSIGN = {"+=": "+", "-=": "-", "*=": "*", "&=": "&", "|=": "|", "^=": "^", "<<=": "<<", ">>=": ">>"}
 
@@ -1874,14 +1987,35 @@ class Tr:
                 env.vars[lhs[1]].val = Cursor(c.place, V(n, T_NAT, True), c.ety, c.mut)
                 return
             raise TranslateError("unsupported pointer assignment")
+        l0 = lhs
+        while l0[0] == "paren":
+            l0 = l0[1]
+        if l0[0] == "path" and l0[1] in env.vars and (isinstance(env.vars[l0[1]].val, Alias) or env.vars[l0[1]].param is not None):
+            raise TranslateError(f"`{l0[1]} = …` re-binds a `&mut` borrow (only stores through it, `*{l0[1]} = …` / `{l0[1]}[i] = …`, are translated)")
+        mark = len(self.modlog)
         p = self.place_of(lhs, env, items)
         if p is None:
             raise TranslateError("assignment to a non-place")
+        place_wrote = len(self.modlog) != mark
         pty = self.place_ty(p, env)
+        mark = len(self.modlog)
+        dest_weak = env.vars[p[0]].weak if not p[1] else None
         if op == "=":
-            v = self.ev(rhs, env, items, pty)
+            v = self.ev(rhs, env, items, pty, soft=dest_weak is not None)
         else:
             v = self.binop_values(self.OPASSIGN[op], lhs, rhs, env, items, pty)
+        if dest_weak is not None:
+            if v.ty is None or v.weak:
+                self.wunion([dest_weak] + sorted(v.weak))
+            else:
+                self.wfirm([dest_weak])
+        elif v.weak:
+            self.wfirm(v.weak)
+        rhs_wrote = len(self.modlog) != mark
+        # Rust evaluates the assigned value first, then the operands of the place expression (and, for `op=` on integers, reads the
+        # place after the value).  Here the place comes first; that is the same unless an operand has an effect on the state.
+        if place_wrote or (rhs_wrote and (op != "=" or any(st[0] in ("r", "i") for st in p[1]))):
+            raise TranslateError("assignment whose operands have side effects: Rust's evaluation order (value, then place) is not translated")
         v = self.coerce(v, pty)
         self.check_ty(v.ty, pty, "assignment")
         if v.ty == T_BOOL and v.prop:
@@ -1937,7 +2071,7 @@ class Tr:
             elif isinstance(var.val, Cursor):
                 pn = self.fresh(vn + "_ix")
                 plist.append((vn, pn, "Nat", "cursor"))
-                envK.vars[vn] = Var(var.ty, Cursor(var.val.place, V(pn, T_NAT, True), var.val.ety, var.val.mut))
+                envK.vars[vn] = Var(var.ty, Cursor(var.val.place, V(pn, T_NAT, True), var.val.ety, var.val.mut), var.param, var.weak)
             elif var.ty[0] == "closure":
                 cl = self.closures[var.ty[1]]
                 plist.append((vn, var.val.t, cl["lean_ty"], "func"))
@@ -1945,7 +2079,7 @@ class Tr:
             else:
                 pn = self.fresh(vn)
                 plist.append((vn, pn, self.lean_ty(var.ty), "var"))
-                envK.vars[vn] = Var(var.ty, V(pn, var.ty, True))
+                envK.vars[vn] = Var(var.ty, V(pn, var.ty, True), var.param, var.weak)
         return envK, plist
 
     def arg_text(self, env, vn, kind):
@@ -2028,7 +2162,10 @@ class Tr:
         envL, plist = self.param_env(env)
         sc = Scope("loop"); sc.forced = kind == "while"
         pre = []
+        markc = len(self.modlog)
         ctext = self.cond(cond, envL, pre) if kind == "while" else None
+        if len(self.modlog) != markc:
+            raise TranslateError("`while` condition with side effects (the effect of the last, failing evaluation would be lost)")
         itL = []
         envL.facts = set()
         if kind == "list":
@@ -2183,6 +2320,17 @@ class Tr:
                 raise TranslateError("the returned expression is not a place")
             self.write_place(p, V("v", self.write_ty, True), env, items)
             value = None
+        # the returned expression is evaluated FIRST: its effects on self / closure states / `&mut` parameters are part of the state
+        # that is handed back (`fn f(&mut self) -> usize { self.bump() }`)
+        vtext = None
+        if self.ret_ty is not None:
+            if value is None:
+                raise TranslateError("missing return value")
+            v = self.coerce(self.ev(value, env, items, self.ret_ty), self.ret_ty)
+            self.check_ty(v.ty, self.ret_ty, "return value")
+            vtext = v.t
+        elif value is not None:
+            raise TranslateError("a value is returned from a function without return type")
         if sig["recv"] == "mut":
             outs.append(self.var_whole(env, "self").t)
         for pn, pty, mode in self.params:
@@ -2190,13 +2338,11 @@ class Tr:
                 outs.append(self.var_whole(env, self.closures_by_param[pn]["st"]).t)
         for pn, pty, mode in self.params:
             if mode == "mut":
+                if getattr(env.vars.get(pn), "param", None) != pn:
+                    raise TranslateError(f"the `&mut` parameter `{pn}` is shadowed at the end of the function")
                 outs.append(self.var_whole(env, pn).t)
-        if self.ret_ty is not None:
-            if value is None:
-                raise TranslateError("missing return value")
-            v = self.coerce(self.ev(value, env, items, self.ret_ty), self.ret_ty)
-            self.check_ty(v.ty, self.ret_ty, "return value")
-            outs.append(v.t)
+        if vtext is not None:
+            outs.append(vtext)
         return ("val", tup(outs) if outs else "()")
 
     # ---------------------------------------------------------------- one function
@@ -2206,7 +2352,12 @@ class Tr:
         text = self.cfg.src(k.file)
         if k.macro:
             text = expand_item_macro(self.cfg, k.file, k.macro, k.macro_args or (re.escape(k.fn) + r"\s*,"))
-        hdr, body = find_fn(text, k.fn, k.scope)
+        # bounded `impl` region, unique live match, item-level #[cfg] evaluated (tools/ktx_glue_guard.py); then the body lint:
+        # statement attributes, nested items, inner-block shadowing and re-bound `&mut` parameters are refused; `let x = &mut PLACE`
+        # aliases are write-through here (class Alias)
+        hdr, body = GUARD.find_fn(text, k.fn, k.scope, strip=False)
+        GUARD.lint_fn(hdr, body, what=f"fn {k.fn}", alias_ok=True, weak_lit_ok=True)
+        GUARD.check_fn_uses(k.file, self.cfg.src(k.file), hdr, body, what=f"fn {k.fn}")
         return hdr, lex(body)
 
     def run(self):
@@ -2257,7 +2408,7 @@ class Tr:
                 continue
             ty = self.conv(tast)
             mode = "mut" if (tast[0] == "ref" and tast[1]) else "val"
-            env.vars[pn] = Var(ty, V(ln, ty, True))
+            env.vars[pn] = Var(ty, V(ln, ty, True), param=pn if mode == "mut" else None)
             binders.append(f"({ln} : {self.lean_ty(ty)})")
             self.params.append((pn, ty, mode))
         self.ret_ty = None
@@ -2286,6 +2437,10 @@ class Tr:
         tail = self.seq(body, env, items, self.fn_end)
         blk = (items, tail)
         self.main.blocks.append(blk)
+        for ids in self.weak_casts:
+            if any(self.wfind(i) not in self.weak_firm for i in ids):
+                raise TranslateError("`as` cast of a value whose integer type comes only from unsuffixed literals: rustc infers i32 there, "
+                                     "the translation assumes usize (write the type or a literal suffix)")
         # result type
         outs = []
         if sig["recv"] == "mut":
